@@ -470,6 +470,51 @@ func execCallbacksStorm(in val.V) val.V {
 	return val.L(val.N(uint64(afterRemove.Load())), val.N(uint64(order.Load())), val.N(uint64(dup.Load())), val.Int(missed), val.N(uint64(wrongType.Load())), val.Int(leak))
 }
 
+// runInChild runs one case in a child process of this same binary, so that a crash of the Go
+// runtime (e.g. "fatal error: concurrent map writes", which cannot be recovered) becomes an
+// observation of that case instead of the end of the whole run.
+func runInChild(in val.V) val.V {
+	exe, err := os.Executable()
+	if err != nil {
+		return execCallbacksConcurrent(in)
+	}
+	dir := filepath.Join(raceRoot(), ".work")
+	_ = os.MkdirAll(dir, 0o755)
+	inFile := filepath.Join(dir, fmt.Sprintf("cb-child-in.%d.txt", os.Getpid()))
+	outFile := filepath.Join(dir, fmt.Sprintf("cb-child-out.%d.txt", os.Getpid()))
+	if os.WriteFile(inFile, []byte(val.String(in)+"\n"), 0o644) != nil {
+		return execCallbacksConcurrent(in)
+	}
+	defer os.Remove(inFile)
+	defer os.Remove(outFile)
+	ctx, cancel := context.WithTimeout(context.Background(), 2*time.Minute)
+	defer cancel()
+	cmd := exec.CommandContext(ctx, exe, "-replay", inFile, "-out", outFile, "callbacks")
+	cmd.Env = append(os.Environ(), "VERIF_CB_CHILD=1")
+	b, err := cmd.CombinedOutput()
+	if err != nil {
+		msg := string(b)
+		if i := strings.Index(msg, "fatal error:"); i >= 0 {
+			msg = msg[i:]
+		}
+		if i := strings.IndexByte(msg, '\n'); i >= 0 {
+			msg = msg[:i]
+		}
+		return val.S("crashed: " + msg)
+	}
+	ob, err := os.ReadFile(outFile)
+	if err != nil {
+		return val.S("crashed: no output")
+	}
+	line := strings.TrimRight(string(ob), "\n")
+	if i := strings.IndexByte(line, '\t'); i >= 0 {
+		if v, err := val.Parse(line[i+1:]); err == nil {
+			return v
+		}
+	}
+	return val.S("crashed: unreadable output")
+}
+
 func execCallbacks(in val.V) val.V {
 	if in.At(0).Num() == 0 {
 		return execCallbacksSeq(in)
@@ -477,6 +522,13 @@ func execCallbacks(in val.V) val.V {
 	if in.At(0).Num() == 2 {
 		return execCallbacksRace(in)
 	}
+	if os.Getenv("VERIF_CB_CHILD") != "1" && os.Getenv("VERIF_RACE_CHILD") != "1" {
+		return runInChild(in)
+	}
+	return execCallbacksConcurrent(in)
+}
+
+func execCallbacksConcurrent(in val.V) val.V {
 	if in.At(1).Num() == 0 {
 		return execCallbacksBlock(in)
 	}
